@@ -31,6 +31,8 @@
  *   REST!   lyd_free_tree/lyd_free_siblings changed something outside the freed subtree
  *   DICT!   a failed lys_parse_mem changed the number of dictionary strings
  *   CTX!    the context does not parse a trivial document any more after lys_parse_mem
+ *   LOGLOC!<s>,<d>,<p>,<i> the call left entries on the thread's log location stack (schema nodes, data nodes, paths,
+ *           inputs); they point into trees / contexts that can be freed, the next message would walk them
  * "-" = command skipped (empty slot / arguments the driver refuses, see the comments), "?" = malformed command.
  */
 #include "common.h"
@@ -290,6 +292,8 @@ __wrap_realpath(const char *path, char *resolved)
     return p;
 }
 
+extern THREAD_LOCAL struct ly_log_location_s log_location;      /* src/log.c */
+
 int __lsan_do_recoverable_leak_check(void) __attribute__((weak));
 void __lsan_ignore_object(const void *p) __attribute__((weak));
 
@@ -359,6 +363,7 @@ static const char *MOD_T =
 
 static struct ly_ctx *C[NCTX];
 static struct lyd_node *T[NT];
+static unsigned gen_diff;       /* slots that hold a diff produced by lyd_diff_siblings / lyd_diff_reverse_all / lyd_diff_merge_all */
 static long base_used[NCTX], base_refs[NCTX];  /* dictionary strings / references right after module loading */
 static int notfreed_warn;
 static int debug;
@@ -612,6 +617,28 @@ is_key(const struct lyd_node *n)
     return n && n->schema && (n->schema->flags & LYS_KEY) && (n->schema->nodetype == LYS_LEAF);
 }
 
+/* a node of the forest carries metadata of the module yang (diff operation, anchors, insert, ...) */
+static int
+has_yang_meta(struct lyd_node *first)
+{
+    for (struct lyd_node *n = first; n; n = dfs_next(n)) {
+        if (!n->schema) {
+            for (const struct lyd_attr *a = ((struct lyd_node_opaq *)n)->attr; a; a = a->next) {
+                if (a->name.module_ns && (!strcmp(a->name.module_ns, "yang") || !strcmp(a->name.module_ns, "urn:ietf:params:xml:ns:yang:1"))) {
+                    return 1;
+                }
+            }
+            continue;
+        }
+        for (const struct lyd_meta *m = n->meta; m; m = m->next) {
+            if (!lyd_meta_is_internal(m) && !strcmp(m->annotation->module->name, "yang")) {
+                return 1;
+            }
+        }
+    }
+    return 0;
+}
+
 /* ---------- canonical dump of a forest ---------- */
 #define DUMP_NOFLAGS 1
 
@@ -773,6 +800,8 @@ struct cmdres {
     unsigned inv;           /* slots that the call may modify when it succeeds */
     unsigned modfail;       /* slots that the call may modify even when it fails */
     int skipped;
+    unsigned newdiff;       /* slots that received a diff made by the library */
+    unsigned keep_diff;     /* slots that still hold a library-made diff although they are in inv */
     const struct ly_ctx *ectx;  /* context whose last error describes the failure */
     struct sbuf flags;
 };
@@ -895,6 +924,10 @@ run_cmd(char **w, int nw, struct cmdres *r)
         }
         mod = (c[0] == 'o') ? NULL : mod_arg(w[2]);
         name = arg_str(w[3]);
+        if ((c[0] == 'o') && (!name || !name[0] || (parent && parent->schema && !(parent->schema->nodetype & LYD_NODE_INNER)))) {
+            /* lyd_new_opaq*() asserts on an empty name and on a parent that cannot have children */
+            SKIP();
+        }
         r->ectx = parent ? LYD_CTX(parent) : (mod ? mod->ctx : C[0]);
         if (!strcmp(c, "term")) {
             NEED(7);
@@ -1247,6 +1280,10 @@ run_cmd(char **w, int nw, struct cmdres *r)
         if (!n || ((w[2][0] != '~') && !par)) {
             SKIP();
         }
+        if (par && (!par->schema || !(par->schema->nodetype & LYD_NODE_INNER))) {
+            /* the parameter is a struct lyd_node_inner * */
+            SKIP();
+        }
         if ((d = take_dest(w[4], r, s, ps)) < 0) {
             SKIP();
         }
@@ -1418,6 +1455,10 @@ run_cmd(char **w, int nw, struct cmdres *r)
         if (T[a] && T[b] && (LYD_CTX(T[a]) != LYD_CTX(T[b]))) {
             SKIP();
         }
+        if (has_yang_meta(T[a]) || has_yang_meta(T[b])) {
+            /* data that carry diff metadata themselves are not diffed (lyd_diff_add() asserts on them) */
+            SKIP();
+        }
         r->ectx = T[a] ? LYD_CTX(T[a]) : (T[b] ? LYD_CTX(T[b]) : C[0]);
         r->rc = lyd_diff_siblings(T[a], T[b], (uint16_t)(OPTS(w[3]) & 1), &diff);
         r->fail = r->rc ? 1 : 0;
@@ -1427,6 +1468,9 @@ run_cmd(char **w, int nw, struct cmdres *r)
             diff = NULL;
         }
         T[d] = diff;
+        if (diff) {
+            r->newdiff |= 1u << d;
+        }
     } else if (!strcmp(c, "apply")) {
         /* apply T F : lyd_diff_apply_all(&T[T], T[F]) */
         int t, f;
@@ -1465,6 +1509,9 @@ run_cmd(char **w, int nw, struct cmdres *r)
             diff = NULL;
         }
         T[d] = diff;
+        if (diff && (gen_diff & (1u << f))) {
+            r->newdiff |= 1u << d;
+        }
     } else if (!strcmp(c, "dmerge")) {
         /* dmerge F1 F2 opts : lyd_diff_merge_all(&T[F1], T[F2], opts) */
         int a, b;
@@ -1475,12 +1522,18 @@ run_cmd(char **w, int nw, struct cmdres *r)
         if ((a == b) || !T[b] || (T[a] && (LYD_CTX(T[a]) != LYD_CTX(T[b])))) {
             SKIP();
         }
+        if (!(gen_diff & (1u << b)) || (T[a] && !(gen_diff & (1u << a)))) {
+            /* only diffs produced by the library are merged: lyd_diff_merge_*() asserts on diffs without the metadata
+             * that lyd_diff_siblings() always writes */
+            SKIP();
+        }
         r->inv |= 1u << a;
         r->modfail |= 1u << a;
         r->ectx = LYD_CTX(T[b]);
         r->rc = lyd_diff_merge_all(&T[a], T[b], (uint16_t)(OPTS(w[3]) & 1));
         r->fail = r->rc ? 1 : 0;
         fix_first(a);
+        r->keep_diff = 1u << a;
     } else if (!strcmp(c, "val") || !strcmp(c, "valmod") || !strcmp(c, "impl")) {
         /* val S ctx|~ opts withdiff D | valmod S mod opts withdiff D | impl S ctx|~ opts withdiff D */
         int s, d, wd;
@@ -1672,6 +1725,9 @@ main(void)
     memset(snap, 0, sizeof snap);
     debug = getenv("OWN_DEBUG") ? 1 : 0;
     signal(SIGABRT, on_abort);
+    signal(SIGSEGV, on_abort);
+    signal(SIGBUS, on_abort);
+    signal(SIGFPE, on_abort);
     ly_set_log_clb(log_cb);
     ly_log_options(LY_LOLOG | LY_LOSTORE_LAST);
     /* one-time allocations of the library (plugin tables, ...) happen outside of the accounting */
@@ -1698,6 +1754,7 @@ main(void)
         memset(dbg0, 0, sizeof dbg0);
         sb_reset(&o);
         notfreed_warn = 0;
+        gen_diff = 0;
         trk_reset();
         trk_on = 1;
         cur_cmd = -1;
@@ -1740,6 +1797,14 @@ main(void)
                 ly_err_clean(C[ci], NULL);
             }
             run_cmd(wv, nw, &r);
+            /* a slot that the command may have modified no longer counts as a library-made diff, unless the command
+             * itself put one there */
+            gen_diff = (gen_diff & ~((r.inv | r.modfail) & ~r.keep_diff)) | r.newdiff;
+            for (int k = 0; k < NT; k++) {
+                if (!T[k]) {
+                    gen_diff &= ~(1u << k);
+                }
+            }
             arg_free();
             if (r.skipped) {
                 sb_fmt(&o, "%s:%s", wv[0], (r.skipped == 2) ? "?" : "-");
@@ -1753,6 +1818,14 @@ main(void)
                 sb_str(&o, r.flags.s);
             }
             sb_free(&r.flags);
+            /* the thread's log location stack (schema/data node, path, input of the message being built) must be
+             * balanced after every call; what is left is dropped so that later messages do not walk stale nodes */
+            if (log_location.scnodes.count || log_location.dnodes.count || log_location.paths.count || log_location.inputs.count) {
+                sb_fmt(&o, "LOGLOC!%u,%u,%u,%u", log_location.scnodes.count, log_location.dnodes.count, log_location.paths.count,
+                        log_location.inputs.count);
+                ly_log_location_revert(log_location.scnodes.count, log_location.dnodes.count, log_location.paths.count,
+                        log_location.inputs.count);
+            }
             /* links, then the dumps of all slots against the dumps taken after the previous command */
             for (int k = 0; k < NT; k++) {
                 const char *why = check_slot(k);
